@@ -133,6 +133,7 @@ def check(ctx):
     _wiring(rep, model)
     _planner(rep, model)
     _guards(rep, model)
+    _real_length(rep, ctx)
     return rep
 
 
@@ -872,3 +873,40 @@ def _guards(rep, model):
             'False (a non-empty list is truthy), so real data with an '
             'unshifted axis is multiplied by a complex factor in a real '
             'array' % (a, b), FT, inplace.lineno)
+
+
+# --------------------------------------------------------------------------
+# R7: a complex-to-real inverse transform cannot know from the half spectrum
+# whether the real length was 2(m-1) or 2(m-1)+1: every np.fft.irfft(n) call
+# must pass the real shape (s= / n=), otherwise odd lengths come back even
+def _real_length(rep, ctx):
+    n = 0
+    for rel in ('odl/trafos/fourier.py', 'odl/trafos/util/ft_utils.py',
+                'odl/trafos/backends/pyfftw_bindings.py'):
+        try:
+            tree = ctx.tree(rel)
+        except Exception:
+            continue
+        for node in ast.walk(tree):
+            if not isinstance(node, ast.FunctionDef):
+                continue
+            for c in ast.walk(node):
+                if isinstance(c, ast.Call) and isinstance(
+                        c.func, ast.Attribute) and c.func.attr in (
+                            'irfftn', 'irfft', 'irfft2'):
+                    n += 1
+                    key = {'irfftn': 's', 'irfft2': 's', 'irfft': 'n'}[
+                        c.func.attr]
+                    given = len(c.args) >= 2 or any(
+                        k.arg == key for k in c.keywords)
+                    cons = '%s:%s' % (node.name, c.func.attr)
+                    if given:
+                        rep.holds('R7', cons, 'real shape passed')
+                    else:
+                        rep.violation(
+                            'R7', cons, '`%s` is called without the real '
+                            'shape (%s=): a half-complex spectrum of an odd-'
+                            'length axis is transformed back to an even '
+                            'length' % (ast.unparse(c)[:60], key), rel,
+                            c.lineno)
+    rep.floor('R7', 'complex-to-real inverse FFT calls', n, 2)
